@@ -1473,6 +1473,13 @@ class Evaluator:
                 sg = 1 if isinstance(node.op, ast.Add) else -1
                 yy, mm, dd = a.val[1:]
                 ry, rm, rd = (b.val[1], b.val[2], b.val[3]) if b.val[0] == 'rel' else (0, 0, b.val[1])
+                if b.val[0] == 'rel' and len(b.val) > 4:               # absolute fields replace those of the date before the shift
+                    ay_, am_, ad_ = b.val[4:7]
+                    if am_ is not None and not 1 <= am_ <= 12:
+                        raise AbsRaise('ValueError', 'invalid month in relativedelta')
+                    yy, mm, dd = (ay_ if ay_ is not None else yy), (am_ if am_ is not None else mm), (ad_ if ad_ is not None else dd)
+                    if dd < 1:
+                        raise AbsRaise('ValueError', 'day is out of range for month')
                 k_ = (yy + sg * ry) * 12 + (mm - 1) + sg * rm          # years and months first, the day clipped to the month, then days
                 yy, mm = divmod(k_, 12)
                 mm += 1
@@ -2095,10 +2102,12 @@ class Evaluator:
             raise Unknown('monthrange of an unknown month')
         if _unparse(f).split('.')[-1] == 'relativedelta' and not node.args:
             kw = {k.arg: self.ev(k.value, env) for k in node.keywords}
-            if set(kw) - {'years', 'months', 'days'} or not all(isinstance(v_.val, int) and not isinstance(v_.val, bool) for v_ in kw.values()):
+            if set(kw) - {'years', 'months', 'days', 'year', 'month', 'day'} or \
+                    not all(isinstance(v_.val, int) and not isinstance(v_.val, bool) for v_ in kw.values()):
                 raise Unknown('relativedelta')
             return AV('timedelta', val=('rel', kw['years'].val if 'years' in kw else 0, kw['months'].val if 'months' in kw else 0,
-                                        kw['days'].val if 'days' in kw else 0))
+                                        kw['days'].val if 'days' in kw else 0, kw['year'].val if 'year' in kw else None,
+                                        kw['month'].val if 'month' in kw else None, kw['day'].val if 'day' in kw else None))
         if self.class_table and isinstance(f, ast.Name) and ((f.id in env and self.is_class_value(env[f.id])) or
                                                              (f.id not in env and f.id in self.class_table)):
             cname_ = env[f.id].val[1] if f.id in env else f.id
@@ -2381,6 +2390,17 @@ class Evaluator:
                 return self.call_method('EmptyCell.' + f.attr, args, recv)
             if recv.kind == 'func' and f.attr == '__call__':
                 raise Unknown('call of a lambda')
+            if recv.kind == 'float' and f.attr == 'is_integer' and not node.args:
+                if isinstance(recv.val, float):
+                    return const_av(recv.val.is_integer())
+                if recv.frac is not None:
+                    return const_av(not recv.frac)
+            if recv.kind in ('int', 'bool') and f.attr == 'is_integer' and not node.args and isinstance(recv.val, int):
+                return const_av(True)
+            if recv.kind in ('int', 'float') and f.attr in ('bit_length', 'conjugate', 'as_integer_ratio', 'hex') and not node.args and \
+                    isinstance(recv.val, (int, float)) and not isinstance(recv.val, bool) and hasattr(recv.val, f.attr):
+                return self._from_python(getattr(recv.val, f.attr)()) if f.attr != 'as_integer_ratio' else \
+                    AV('tuple', items=tuple(const_av(x_) for x_ in recv.val.as_integer_ratio()))
             raise Unknown(f'method {f.attr} of {recv!r}')
         raise Unknown(f'call {_unparse(f)[:40]}')
 
